@@ -49,3 +49,9 @@ Print Assumptions C19_plan_complete.
 Print Assumptions C19_set_config_replaces.
 Print Assumptions C19_selection_regenerated.
 Print Assumptions C19_selected_is_optimal.
+
+(* state shared between objects (regenerated scan of the whole package: memoising decorators, mutable class attributes of non-pydantic classes, module-level
+   containers mutated by functions): there is none - a grid is its own object: no layout shared between grids, no score table shared between tuners *)
+Theorem C19_no_shared_mutable_state : gen_no_shared_mutable_state = true.
+Proof. reflexivity. Qed.
+Print Assumptions C19_no_shared_mutable_state.
